@@ -74,7 +74,7 @@ class Unit:
             raise Undecided('no such unit %s' % name)
         self.serves = []
         self.no_panic = []
-        self.rules = {'R1', 'R2', 'R4', 'R5', 'R9', 'R10', 'R11'}
+        self.rules = {'R1', 'R2', 'R4', 'R5', 'R9', 'R10', 'R11', 'R18'}
         self.guard_panics = False
         self.substs = []   # (scope, is_regex, frm, to)
         self.forloops = []  # (scope, expr literal, replacement iterator expr)   rule R7
@@ -101,7 +101,18 @@ class Unit:
         return self.items_cache[rel]
 
     def find_item(self, rel, kind, name):
-        c = [it for it in self.items(rel) if it.kind == kind and it.name == name
+        pool = self.items(rel)
+        while '::' in name:
+            # an item of an inline module of the file: `module::item`
+            mod, name = name.split('::', 1)
+            ms = [it for it in pool if it.kind == 'mod' and it.name == mod and it.body_open is not None]
+            if len(ms) != 1:
+                raise Undecided('lost anchor: mod %s in %s (%d candidates)' % (mod, rel, len(ms)))
+            try:
+                pool = rx.parse_items(ms[0].src, ms[0].body_open + 1, ms[0].end - 1)
+            except rx.LexError as e:
+                raise Undecided('cannot lex mod %s of %s: %s' % (mod, rel, e))
+        c = [it for it in pool if it.kind == kind and it.name == name
              and not any('cfg(test)' in a for a in it.attrs)]
         if len(c) != 1:
             raise Undecided('lost anchor: %s %s in %s (%d candidates)' % (kind, name, rel, len(c)))
@@ -162,6 +173,12 @@ class Unit:
                 if n:
                     text = text.replace(frm, pad_nl(frm, to))
                     out.count('R8', n)
+        # R18: `match` on string literal patterns (no meaning in Verus) becomes the if-chain that defines it
+        if 'R18' in self.rules:
+            t18, lits18, n18 = rx.r18_str_match(text)
+            if n18:
+                text = pad_nl(text, t18)
+                out.count('R18', n18)
         # R17: a by-value `mut self` receiver (not supported by Verus) becomes `self` plus a mutable local `this` that the body uses
         m = re.match(r'(\s*(?:pub(?:\([^)]*\))?\s+)?fn\s+\w+\s*(?:<[^{;]*?>)?\s*\(\s*)mut\s+self\b', text, re.S)
         if m:
@@ -540,6 +557,15 @@ class Unit:
         if sig_lines:
             inserts.append((bo, sig_lines))
         body = text[bo:]
+        if opts.get('strlits') == 'on' and has_body:
+            # Verus knows the characters of a string literal only after reveal_strlit: reveal every literal the body mentions
+            lits = []
+            for tk_, b_, e_ in rx.sig_tokens(body):
+                if tk_ == 'str' and body[b_:e_].startswith('"') and body[b_:e_] not in lits:
+                    lits.append(body[b_:e_])
+            if lits:
+                rl = '        proof { ' + ' '.join('reveal_strlit(%s);' % l for l in lits) + ' }'
+                inserts.append((bo + 1, [(rl, {'kind': 'contract', 'fn': fid, 'tmpl_line': 0})]))
         loops = None
         rets = None
         for (kind, nn), sl in secs.items():
